@@ -263,7 +263,7 @@ func runPlan(ctx *Ctx) {
 		if i%2 == 1 {
 			tg = respT
 		}
-		p := &popCfg{r: r, s: s, fill: i % 3, textSafe: false, respectGating: true}
+		p := &popCfg{r: r, s: s, fill: i % 3, respectGating: true}
 		x := reflect.New(tg.ty.Elem())
 		p.populate(x.Elem())
 		b := planCase(ctx, s, tg, x, true)
